@@ -669,7 +669,7 @@ def finalize(r, work, cid, m, n, distinct_hist, skipped_reasons):
         fa, fb = res[a][2], res[b][2]
         if set(fa) != set(fb):
             wd, pa, pb, yf = save_witness(work, cid, sch, fs, m["cmd"], da, db, None)
-            r.violate("nondeterministic-output", "%s:%s:file-set" % (kind, fn),
+            r.violate("nondeterministic-output", "%s:file-set" % kind,
                       "output file set differs between two runs of config %s: only in a: %s, only in b: %s"
                       % (cid, sorted(set(fa) - set(fb))[:5], sorted(set(fb) - set(fa))[:5]),
                       dict(config=cid, schema_files=yf or sch["files"], include_path=sch["path"], flagset=fn, cmd=m["cmd"],
@@ -686,7 +686,7 @@ def finalize(r, work, cid, m, n, distinct_hist, skipped_reasons):
                 wd = pa = pb = None
                 yf = []
             for cls in classes:
-                r.violate("nondeterministic-output", "%s:%s:%s" % (kind, fn, cls),
+                r.violate("nondeterministic-output", "%s:%s" % (kind, cls),
                           "%d distinct outputs in %d runs of config %s; file %s differs (%s) between run %d and run %d: %s"
                           % (distinct, n, cid, rel, ",".join(classes), a, b, excerpt[:400]),
                           dict(config=cid, schema_files=yf or sch["files"],
@@ -737,7 +737,7 @@ def finalize_inproc(r, work, sch, nme, kind, cmd, rc, out, distinct_hist, skippe
             blk = re.search(r"^block: (.*)$", fd, re.M)
             ctx = [blk.group(1) if blk else ""] + [m.group(1)]
             cls = classify_line(ctx, len(ctx) - 1)
-        r.violate("nondeterministic-output", "%s-inproc:%s:%s" % (kind, nme, cls),
+        r.violate("nondeterministic-output", "%s-inproc:%s" % (kind, cls),
                   "%d distinct results in %d in-process generations (8 goroutines x 2) of config %s: %s"
                   % (distinct, len(digs), cid, fd[:400]),
                   dict(config=cid, cmd=cmd, digests=digs, first_diff=fd, schema_files=sch["files"], include_path=sch["path"]))
